@@ -3,7 +3,26 @@ package main
 import (
 	"fmt"
 	"go/ast"
+	"go/types"
 )
+
+// intersectDBC keeps the constraints present in both sets (weakest bound).
+func intersectDBC(a, b []dbc) []dbc {
+	var out []dbc
+	for _, x := range a {
+		for _, y := range b {
+			if x.x == y.x && x.y == y.y && (len(x.why) < 4 || x.why[:4] != "NEQ:") && (len(y.why) < 4 || y.why[:4] != "NEQ:") {
+				c := x.c
+				if y.c < c {
+					c = y.c
+				}
+				out = append(out, dbc{x.x, x.y, c, x.why})
+				break
+			}
+		}
+	}
+	return out
+}
 
 // boundsRule proves every index/slice expression (and length-requiring call)
 // in the listed functions, including their function literals, and records one
@@ -15,6 +34,67 @@ func boundsRule(c *Ctx, m *Module, rule string, keys []string, sums map[string]c
 
 // boundsRuleX additionally proves make() sizes when allocMax >= 0.
 func boundsRuleX(c *Ctx, m *Module, rule string, keys []string, sums map[string]calleeSummary, exempt map[string]string, allocMax int64) int {
+	return boundsRuleO(c, m, rule, keys, BoundsOpts{Sums: sums}, exempt, allocMax)
+}
+
+// closureCallSites returns the calls of the local variable a function
+// literal is bound to (v := func.. / var v = func..), or nil.
+func closureCallSites(f *Func, lit *ast.FuncLit) []*ast.CallExpr {
+	var obj types.Object
+	ast.Inspect(f.Decl.Body, func(x ast.Node) bool {
+		switch s := x.(type) {
+		case *ast.AssignStmt:
+			for i, r := range s.Rhs {
+				if r == ast.Expr(lit) && i < len(s.Lhs) {
+					if id, ok := s.Lhs[i].(*ast.Ident); ok {
+						obj = f.Info().Defs[id]
+						if obj == nil {
+							obj = f.Info().Uses[id]
+						}
+					}
+				}
+			}
+		case *ast.ValueSpec:
+			for i, r := range s.Values {
+				if r == ast.Expr(lit) && i < len(s.Names) {
+					obj = f.Info().Defs[s.Names[i]]
+				}
+			}
+		}
+		return true
+	})
+	if obj == nil {
+		return nil
+	}
+	// the variable must not be reassigned or escape: every use is a call
+	var calls []*ast.CallExpr
+	escaped := false
+	ast.Inspect(f.Decl.Body, func(x ast.Node) bool {
+		if call, ok := x.(*ast.CallExpr); ok {
+			if id, ok := unparen(call.Fun).(*ast.Ident); ok && f.Info().Uses[id] == obj {
+				calls = append(calls, call)
+			}
+		}
+		return true
+	})
+	nUses := 0
+	ast.Inspect(f.Decl.Body, func(x ast.Node) bool {
+		if id, ok := x.(*ast.Ident); ok && f.Info().Uses[id] == obj {
+			nUses++
+		}
+		return true
+	})
+	if nUses != len(calls) {
+		escaped = true
+	}
+	if escaped {
+		return nil
+	}
+	return calls
+}
+
+func boundsRuleO(c *Ctx, m *Module, rule string, keys []string, opts BoundsOpts, exempt map[string]string, allocMax int64) int {
+	sums := opts.Sums
 	total := 0
 	usedExempt := map[string]bool{}
 	for _, k := range keys {
@@ -24,18 +104,44 @@ func boundsRuleX(c *Ctx, m *Module, rule string, keys []string, sums map[string]
 		}
 		bodies := []*ast.BlockStmt{f.Decl.Body}
 		graphs := []*Graph{f.Graph()}
+		entries := [][]dbc{nil}
 		ast.Inspect(f.Decl.Body, func(x ast.Node) bool {
 			if l, ok := x.(*ast.FuncLit); ok {
 				bodies = append(bodies, l.Body)
 				graphs = append(graphs, f.LitGraph(l))
+				// facts inherited from the closure's call sites (all in the function's own body)
+				var entry []dbc
+				if innermostLit(f, l) == nil {
+					sites := closureCallSites(f, l)
+					for i, call := range sites {
+						if innermostLit(f, call) != nil {
+							entry = nil
+							break
+						}
+						cs, ok := FactsAtCall(f, f.Decl.Body, f.Graph(), opts, call)
+						if !ok {
+							entry = nil
+							break
+						}
+						if i == 0 {
+							entry = cs
+						} else {
+							entry = intersectDBC(entry, cs)
+						}
+					}
+				}
+				entries = append(entries, entry)
 			}
 			return true
 		})
 		seen := map[string]int{}
 		for i, body := range bodies {
-			sinks := BoundsCheck(f, body, graphs[i], sums, nil)
+			o := opts
+			o.Sums = sums
+			o.Entry = entries[i]
+			sinks := BoundsCheck(f, body, graphs[i], o, nil)
 			if allocMax >= 0 {
-				sinks = append(sinks, AllocCheck(f, body, graphs[i], sums, allocMax)...)
+				sinks = append(sinks, AllocCheck(f, body, graphs[i], o, allocMax)...)
 			}
 			for _, s := range sinks {
 				cons := k + ": " + s.Desc
